@@ -105,7 +105,7 @@ static int fu_child(void* p) {
     int exp = OSTATUS[a->o];
     if (a->e == E_DECODE || a->e == E_EXPLICIT) { pv_mdecode md; pv_m_decode(in.str, in.coin, a->e == E_DECODE ? NULL : in.L, 3, &md); if (md.status >= 0) exp = md.status; }     /* e.g. a phrase that happens to be valid in two lists */
     if (!failed && st != exp) return 30 + (st & 7);
-    if (pv_ledger_live() != (st == POLYSEED_OK ? 1 : 0)) return 40;
+    if (st == POLYSEED_OK ? pv_ledger_live() < 1 : pv_ledger_live() != 0) return 40;
     if (st == POLYSEED_OK) pv_api_free(s);
     for (int e2 = 0; e2 < E_N; ++e2) for (int rep = 0; rep < 8; ++rep) {
         input i2; if (!make_input(e2, O_OK, &r, &i2)) continue;
@@ -136,6 +136,10 @@ static void run_firstuse(uint64_t idx, pv_rng* rng) {
     else { snprintf(key, sizeof key, "C15/crash/%s", what); pv_violation(key, "%s: child ended with %d", what, rc); }
 }
 
+/* How many blocks a seed consists of is the library's business (one today): a successful constructor must keep at least one block,
+ * a failed one none, and freeing the seed must give back exactly what its constructor kept. */
+static int kept(int st, int held_before) { int k = pv_ledger_live() - held_before; return st == POLYSEED_OK ? (k >= 1 ? k : 1) : 0; }
+
 /* ---------------------------------------------------------------- site x outcome x fault choice */
 static uint64_t n_matrix(void) { return (uint64_t)E_N * O_N * pv_scaled(200, 20000); }
 static void run_matrix(uint64_t idx, pv_rng* rng) {
@@ -156,12 +160,13 @@ static void run_matrix(uint64_t idx, pv_rng* rng) {
     int nalloc = pv_ev_count(PV_EV_ALLOC);
     bool ok = true;
     if (st0 != OSTATUS[o]) { pv_countf(1, "matrix.other_outcome.%s.%s", ENAME[e], ONAME[o]); }      /* status agreement with the model is judged by C01/C06/C09 */
-    ok &= ledger_ok(what, held, held + (st0 == POLYSEED_OK ? 1 : 0));
+    int k0 = kept(st0, held);
+    ok &= ledger_ok(what, held, held + k0);
     if (st0 == POLYSEED_OK) {
         if (!pv_ledger_is_live(s)) { ok = false; pv_violation("C15/seed-not-from-injected-allocator", "%s returned a seed that does not lie in any block the injected allocator handed out", what); }
         if (in.have_seed && e != E_CREATE) { const char* mm = pv_seed_mismatch(s, &in.m, in.coin); if (mm) { ok = false; pv_violation("C15/junk-memory-visible", "%s: seed built in junk-filled memory differs from the model: %s", what, mm); } }
         pv_api_free(s);
-        ok &= ledger_ok("free", held + 1, held);
+        ok &= ledger_ok("free", held + k0, held);
     }
     pv_countf(1, "matrix.cell.%s.%s.fault-none", ENAME[e], ONAME[o]);
     /* fail the k-th request */
@@ -178,8 +183,9 @@ static void run_matrix(uint64_t idx, pv_rng* rng) {
             ok &= ledger_ok(w2, held, held);
         } else {
             if (st != st0) { ok = false; pv_violation("C15/armed-but-unused-failure-changes-result", "%s: no allocation failed, yet status %s instead of %s", w2, pv_status_name(st), pv_status_name(st0)); }
-            ok &= ledger_ok(w2, held, held + (st == POLYSEED_OK ? 1 : 0));
-            if (st == POLYSEED_OK) { pv_api_free(s); ok &= ledger_ok("free", held + 1, held); }
+            int k2 = kept(st, held);
+            ok &= ledger_ok(w2, held, held + k2);
+            if (st == POLYSEED_OK) { pv_api_free(s); ok &= ledger_ok("free", held + k2, held); }
         }
         pv_countf(1, "matrix.cell.%s.%s.fault-%d%s", ENAME[e], ONAME[o], k, failed ? "(hit)" : "(not reached)");
         /* the next call behaves normally */
@@ -210,7 +216,7 @@ static void run_masks(uint64_t idx, pv_rng* rng) {
     char* out = malloc(POLYSEED_STR_SIZE);
     for (unsigned mask = 0; mask < (1u << n); ++mask) {
         int held0 = pv_ledger_live();
-        polyseed_data* live[MAXSEQ]; int nlive = 0;
+        polyseed_data* live[MAXSEQ]; int liveblocks[MAXSEQ]; int nlive = 0;
         pv_w->fail_mask = mask; pv_w->fail_mask_n = n;        /* the i-th allocation request of the sequence fails iff bit i is set */
         for (int i = 0; i < n; ++i) {
             polyseed_data* s; int before = pv_ledger_live();
@@ -219,19 +225,20 @@ static void run_masks(uint64_t idx, pv_rng* rng) {
             PV_COUNT("evaluations", 1);
             if (failed && st != POLYSEED_ERR_MEMORY) { pv_violation("C15/alloc-failure-not-reported/sequence", "step %d (%s): allocation failed, status %s", i, ENAME[in[i].e], pv_status_name(st)); }
             if (!failed && st == POLYSEED_ERR_MEMORY) pv_violation("C15/spurious-memory-error", "step %d (%s): ERR_MEMORY although no allocation failed", i, ENAME[in[i].e]);
-            ledger_ok("sequence-step", before, before + (st == POLYSEED_OK ? 1 : 0));
+            int kq = kept(st, before);
+            ledger_ok("sequence-step", before, before + kq);
             if (st == POLYSEED_OK) {
-                live[nlive++] = s;
+                liveblocks[nlive] = kq; live[nlive++] = s;
                 /* interleave other operations on the seed; whatever they allocate must be returned before they return */
                 int b2 = pv_ledger_live();
                 if (i & 1) { pv_api_crypt(s, "k"); pv_api_crypt(s, "k"); }
                 else pv_api_encode(s, in[i].L->lib, in[i].coin, out);
                 if (pv_ledger_live() != b2) pv_violation("C15/leak/crypt-or-encode", "crypt/encode changed the number of live blocks by %d", pv_ledger_live() - b2);
             }
-            if (nlive && pv_randn(rng, 3) == 0) { int b4 = pv_ledger_live(); pv_api_free(live[--nlive]); ledger_ok("sequence-free", b4, b4 - 1); }
+            if (nlive && pv_randn(rng, 3) == 0) { int b4 = pv_ledger_live(); --nlive; pv_api_free(live[nlive]); ledger_ok("sequence-free", b4, b4 - liveblocks[nlive]); }
         }
         pv_w->fail_mask_n = 0; pv_w->fail_mask = 0;
-        while (nlive) { int b4 = pv_ledger_live(); pv_api_free(live[--nlive]); ledger_ok("sequence-free", b4, b4 - 1); }
+        while (nlive) { int b4 = pv_ledger_live(); --nlive; pv_api_free(live[nlive]); ledger_ok("sequence-free", b4, b4 - liveblocks[nlive]); }
         if (pv_ledger_live() != held0) pv_violation("C15/leak/sequence", "mask %#x over %d calls: %d blocks left", mask, n, pv_ledger_live() - held0);
         PV_COUNT("masks.enumerated", 1);
         PV_DISTINCT("nontrivial", pv_mix(pv_mix(0x3a5c, idx), mask));
@@ -254,12 +261,13 @@ static void run_libc(uint64_t idx, pv_rng* rng) {
     PV_COUNT("evaluations", 1);
     uint64_t dm = pv_wrap_count[PV_WRAP_MALLOC] - m0, df = pv_wrap_count[PV_WRAP_FREE] - f0;
     if (pv_ev_count(PV_EV_ALLOC) || pv_ev_count(PV_EV_FREE)) pv_violation("C15/libc-path/stale-injected-allocator", "%s: injected alloc/free called although the entries are NULL", ENAME[e]);
-    if (dm != df + (st == POLYSEED_OK ? 1 : 0)) pv_violation("C15/libc-path/leak", "%s -> %s: %llu malloc, %llu free inside the call", ENAME[e], pv_status_name(st), (unsigned long long)dm, (unsigned long long)df);
+    uint64_t keptl = dm > df ? dm - df : 0;          /* blocks the returned seed consists of (one today) */
+    if (st == POLYSEED_OK ? keptl < 1 : dm != df) pv_violation("C15/libc-path/leak", "%s -> %s: %llu malloc, %llu free inside the call", ENAME[e], pv_status_name(st), (unsigned long long)dm, (unsigned long long)df);
     else pv_countf(1, "libc.calls_balanced.%s", pv_status_name(st));
     if (st == POLYSEED_OK) {
         f0 = pv_wrap_count[PV_WRAP_FREE]; m0 = pv_wrap_count[PV_WRAP_MALLOC];
         pv_api_free(s);           /* ASan reports double/invalid frees on this path; LeakSanitizer reports leaks at exit */
-        if (pv_wrap_count[PV_WRAP_FREE] - f0 != 1 || pv_wrap_count[PV_WRAP_MALLOC] != m0) pv_violation("C15/libc-path/free", "polyseed_free: %llu libc free calls", (unsigned long long)(pv_wrap_count[PV_WRAP_FREE] - f0));
+        if (pv_wrap_count[PV_WRAP_FREE] - f0 != keptl || pv_wrap_count[PV_WRAP_MALLOC] != m0) pv_violation("C15/libc-path/free", "polyseed_free: %llu libc free calls", (unsigned long long)(pv_wrap_count[PV_WRAP_FREE] - f0));
         else PV_COUNT("libc.seed_freed_once", 1);
     }
     /* the libc allocator runs out of memory: the same status rule as for an injected allocator (no crash, MEMORY, no seed, balanced) */
@@ -274,7 +282,7 @@ static void run_libc(uint64_t idx, pv_rng* rng) {
         dm = pv_wrap_count[PV_WRAP_MALLOC] + pv_wrap_count[PV_WRAP_CALLOC] - m0 - (refused ? 1 : 0); df = pv_wrap_count[PV_WRAP_FREE] - f0;
         if (refused && st2 != POLYSEED_ERR_MEMORY) pv_violation("C15/libc-path/alloc-failure-not-reported", "%s: libc refused an allocation but the call returned %s", ENAME[e], pv_status_name(st2));
         else if (!refused && st2 != st) pv_violation("C15/libc-path/status", "%s: %s, then %s for the same input", ENAME[e], pv_status_name(st), pv_status_name(st2));
-        else if (dm != df + (st2 == POLYSEED_OK ? 1 : 0)) pv_violation("C15/libc-path/leak", "%s -> %s with a refused libc allocation: %llu successful allocations, %llu frees", ENAME[e], pv_status_name(st2), (unsigned long long)dm, (unsigned long long)df);
+        else if (st2 == POLYSEED_OK ? dm < df + 1 : dm != df) pv_violation("C15/libc-path/leak", "%s -> %s with a refused libc allocation: %llu successful allocations, %llu frees", ENAME[e], pv_status_name(st2), (unsigned long long)dm, (unsigned long long)df);
         else if (refused) PV_COUNT("libc.refused_allocation_reported_as_MEMORY", 1);
         if (st2 == POLYSEED_OK) pv_api_free(s2);
     }
